@@ -2,19 +2,21 @@
 SHELL := /bin/bash
 export OCAMLRUNPARAM := s=4M
 REPO ?= /repo
-COQFILES := $(shell sed -n '2,$$p' coq/_CoqProject)
 
-.PHONY: setup gen coq extract driver clean all
+.PHONY: setup gen coq coqproject extract driver clean all
 all: setup
 setup: gen coq driver
 
 gen:
 	python3 tools/gen.py --repo $(REPO) || true
 
-coq/Makefile.coq: coq/_CoqProject
-	cd coq && coq_makefile -f _CoqProject -o Makefile.coq > /dev/null
+# _CoqProject lists every .v under Lib Gen Spec Model Proofs (Props/*.v are compiled by run.py, one per property)
+coqproject:
+	cd coq && (echo '-Q . SZ'; find Lib Gen Spec Model Proofs -name '*.v' | LC_ALL=C sort) > _CoqProject.new && \
+	  (cmp -s _CoqProject.new _CoqProject && rm _CoqProject.new || (mv _CoqProject.new _CoqProject; coq_makefile -f _CoqProject -o Makefile.coq > /dev/null)); \
+	  test -f Makefile.coq || coq_makefile -f _CoqProject -o Makefile.coq > /dev/null
 
-coq: coq/Makefile.coq
+coq: coqproject
 	cd coq && timeout 3000 $(MAKE) -f Makefile.coq -k -j16 2>&1 | grep -v "^COQDEP\|^make\[" ; exit $${PIPESTATUS[0]}
 
 extract:
